@@ -2,91 +2,32 @@
 
 (D)    spec/Poly.tla: formal calculus on the basis tables (d(T H/RT)/dT = Cp,
        T dS/dT = Cp for every coefficient of every family) and the segment
-       selection rule (implementation rule within the set the property allows),
+       selection rule (implementation rule within the set the property allows,
+       for every layout with 1-4 NASA-9 segments in every stored order),
        checked by TLC; TLC also emits every selection / array-dispatch case.
 (S->C) each emitted case is instantiated with real species whose segments have
-       distinct coefficients; scalar and array getters are called.
+       distinct coefficients; scalar and array getters are called.  The forms
+       in which a caller may give the inputs (containers, number types, units,
+       constructor, stored order) are enumerated round-robin over the cases.
 (C->S) spec/Trace_Poly.tla judges: basis binding (unit-vector probes of the
        evaluators against the same tables), linearity, segment chosen / refused,
        array = map of scalar, G = H - S, Richardson derivative relations.
 """
 import math
+import os
 import random
 
 from harness import core
+from harness import lib_c02 as L
 from harness.core import to_dec, to_dec2
 
-BOUNDS = [
-    {1: 200.0, 2: 1000.0, 3: 2500.0, 4: 4000.0, 5: 6000.0},
-    {1: 298.15, 2: 873.4, 3: 1499.9, 4: 3100.5, 5: 5000.25},
-]
-UNITS = ['J/mol/K', 'cal/mol/K', 'kJ/mol/K', 'eV/K']
 H_STEP = 2.0 ** -7
-
-
-def pos_to_T(p, bounds, last_b):
-    b, r = divmod(p, 4)
-    if b == 0:                       # below the first boundary
-        return bounds[1] * 0.5 if r == 2 else math.nextafter(bounds[1], -math.inf)
-    if r == 0:
-        return bounds[b]
-    if r == 1:
-        return math.nextafter(bounds[b], math.inf)
-    if b == last_b:                  # above the last boundary (r == 2)
-        return bounds[b] * 1.2
-    if r == 2:
-        return 0.5 * (bounds[b] + bounds[b + 1])
-    return math.nextafter(bounds[b + 1], -math.inf)
-
-
-def _coeffs(rnd, n, family):
-    # every term contributes O(1) around 1000 K (t = 1 for Shomate)
-    if family == 'nasa7':
-        p = [0, 1, 2, 3, 4]
-        a = [rnd.uniform(-2, 2) * 1000.0 ** -x for x in p] + [rnd.uniform(-3e3, 3e3), rnd.uniform(-5, 5)]
-    elif family == 'nasa9':
-        p = [-2, -1, 0, 1, 2, 3, 4]
-        a = [rnd.uniform(-2, 2) * 1000.0 ** -x for x in p] + [rnd.uniform(-3e3, 3e3), rnd.uniform(-5, 5)]
-    else:
-        a = [rnd.uniform(-30, 30) for _ in range(5)] + [rnd.uniform(-50, 50), rnd.uniform(-50, 50), rnd.uniform(-5, 5)]
-    return a
-
-
-def _evaluators(family):
-    import numpy as np
-    from pmutt.empirical import nasa as N
-    from pmutt.empirical import shomate as S
-    if family == 'nasa7':
-        return (lambda a, T, u: float(N.get_nasa_CpoR(a=np.array(a), T=T)),
-                lambda a, T, u: float(N.get_nasa_HoRT(a=np.array(a), T=T)),
-                lambda a, T, u: float(N.get_nasa_SoR(a=np.array(a), T=T)))
-    if family == 'nasa9':
-        return (lambda a, T, u: float(np.squeeze(N.get_nasa9_CpoR(a=np.array(a), T=np.array([T])))),
-                lambda a, T, u: float(np.squeeze(N.get_nasa9_HoRT(a=np.array(a), T=np.array([T])))),
-                lambda a, T, u: float(np.squeeze(N.get_nasa9_SoR(a=np.array(a), T=np.array([T])))))
-    return (lambda a, T, u: float(S.get_shomate_CpoR(a=np.array(a), T=np.array([T]), units=u)[0]),
-            lambda a, T, u: float(S.get_shomate_HoRT(a=np.array(a), T=np.array([T]), units=u)[0]),
-            lambda a, T, u: float(S.get_shomate_SoR(a=np.array(a), T=np.array([T]), units=u)[0]))
-
-
-def _build(family, segs, bounds, coefs, units='J/mol/K'):
-    import numpy as np
-    from pmutt.empirical.nasa import Nasa, Nasa9, SingleNasa9
-    from pmutt.empirical.shomate import Shomate
-    if family == 'nasa7':
-        return Nasa(name='sp', T_low=bounds[segs[0][0]], T_mid=bounds[segs[0][1]],
-                    T_high=bounds[segs[1][1]], a_low=np.array(coefs[0]), a_high=np.array(coefs[1]),
-                    phase='S', elements={'H': 2, 'O': 1})
-    if family == 'nasa9':
-        nasas = [SingleNasa9(T_low=bounds[lo], T_high=bounds[hi], a=np.array(cf))
-                 for (lo, hi), cf in zip(segs, coefs)]
-        return Nasa9(name='sp', nasas=nasas, phase='S', elements={'H': 2, 'O': 1})
-    return Shomate(name='sp', T_low=bounds[segs[0][0]], T_high=bounds[segs[0][1]],
-                   a=np.array(coefs[0]), units=units, phase='S', elements={'H': 2, 'O': 1})
+QI = {'Cp': 0, 'H': 1, 'S': 2}
+GETTERS = ('get_CpoR', 'get_HoRT', 'get_SoR')
 
 
 def _call(fn):
-    """-> ('ok', value) | ('raise', None) for ValueError | ('error', repr)"""
+    """-> ('ok', value) | ('raise', msg) for ValueError | ('error', repr)"""
     try:
         return 'ok', fn()
     except ValueError as ex:
@@ -95,70 +36,85 @@ def _call(fn):
         return 'error', '%s: %s' % (type(ex).__name__, ex)
 
 
+def _status(res):
+    sts = {r[0] for r in res}
+    return 'ok' if sts == {'ok'} else 'raise' if sts == {'raise'} else 'error'
+
+
+def _case_setup(case):
+    """-> (forms, bounds, coefs (plain lists, canonical order), object, temperatures, acc)"""
+    rnd = random.Random(case['cseed'])
+    forms = L.forms_of(case)
+    f, segs = case['f'], case['segs']
+    order = case.get('ord') or list(range(1, len(segs) + 1))
+    bounds = L.bounds_of(case['bset'], case['cseed'])
+    coefs = L.coefficient_sets(rnd, f, len(segs), forms['akind'], forms['scale'])
+    obj = L.build(f, segs, order, bounds, coefs, forms, single=bool(case.get('single')))
+    if 'xT' in case:
+        # temperatures strictly inside a named segment: the acceptable segment is known by construction
+        Ts = []
+        for j, u in case['xT']:
+            lo, hi = bounds[segs[j - 1][0]], bounds[segs[j - 1][1]]
+            T = lo + u * (hi - lo)
+            T = min(max(T, math.nextafter(lo, math.inf)), math.nextafter(hi, -math.inf))
+            Ts.append(T)
+        acc = [[j] for j, _ in case['xT']]
+    else:
+        last_b = segs[-1][1]
+        Ts = [L.pos_to_T(p, bounds, last_b) for p in case['ps']]
+        acc = case['acc']
+    return rnd, forms, bounds, coefs, obj, Ts, acc
+
+
 def exec_select(case):
     import numpy as np
     import warnings
     warnings.simplefilter('ignore')
-    rnd = random.Random(case['cseed'])
-    f, segs = case['f'], case['segs']
-    bounds = BOUNDS[case['bset']]
-    last_b = segs[-1][1]
-    units = UNITS[case['cseed'] % len(UNITS)]
-    coefs = [_coeffs(rnd, 0, f) for _ in segs]
-    obj = _build(f, segs, bounds, coefs, units)
-    Ts = [pos_to_T(p, bounds, last_b) for p in case['ps']]
-    ev = _evaluators(f)
-    getters = (obj.get_CpoR, obj.get_HoRT, obj.get_SoR)
-    seg_vals, sc = [], []
-    detail = {'T': Ts, 'units': units}
-    nco = len(coefs[0])
-    mags = []
+    rnd, forms, bounds, coefs, obj, Ts, acc = _case_setup(case)
+    f = case['f']
+    units = forms['units']
+    ev = L.evaluators(f)
+    getters = [getattr(obj, g) for g in GETTERS]
+    seg_vals, sc, mags = [], [], []
+    detail = {'T': Ts if len(Ts) <= 16 else Ts[:16] + ['...'], 'forms': forms}
+
+    def scalar_at(T):
+        res = [_call(lambda g=g: float(np.squeeze(g(T=L.scalar_form(T, forms['tscalar']))))) for g in getters]
+        st = _status(res)
+        if st == 'ok':
+            return {'st': 'ok', 'v': [to_dec2(r[1]) for r in res]}
+        if st == 'error':
+            detail.setdefault('scalar_error', []).append([T] + [r[1] for r in res if r[0] != 'ok'][:1])
+        return {'st': st, 'v': []}
+
     for T in Ts:
         seg_vals.append([[to_dec2(e(cf, T, units)) for e in ev] for cf in coefs])
-        # largest single term |a_j * basis_j(T)| of any segment, per quantity: the scale against which
-        # "exactly" is read (a polynomial value can be a cancelled sum of much larger terms)
-        m = []
-        for e in ev:
-            big = 0.0
-            for cf in coefs:
-                for j in range(nco):
-                    unit = [0.0] * nco
-                    unit[j] = 1.0
-                    big = max(big, abs(cf[j] * e(unit, T, units)))
-            m.append(to_dec(big))
-        mags.append(m)
-        res = [_call(lambda g=g: float(np.squeeze(g(T=T)))) for g in getters]
-        sts = {r[0] for r in res}
-        if sts == {'ok'}:
-            sc.append({'st': 'ok', 'v': [to_dec2(r[1]) for r in res]})
-        elif sts == {'raise'}:
-            sc.append({'st': 'raise', 'v': []})
-        else:
-            sc.append({'st': 'error', 'v': []})
-            detail['scalar_error'] = [r[1] for r in res if r[0] != 'ok']
-    arr_in = np.array(Ts) if case['cseed'] % 2 == 0 else list(Ts)
-    res = [_call(lambda g=g: [float(x) for x in np.atleast_1d(g(T=arr_in))]) for g in getters]
-    sts = {r[0] for r in res}
-    if sts == {'ok'}:
-        arr = {'st': 'ok', 'v': [[to_dec2(x) for x in r[1]] for r in res]}
-    elif sts == {'raise'}:
-        arr = {'st': 'raise', 'v': []}
-    else:
-        arr = {'st': 'error', 'v': []}
-        detail['array_error'] = [str(r[1])[:200] for r in res if r[0] != 'ok']
+        mags.append([to_dec(x) for x in L.largest_terms(ev, coefs, T, units)])
+        sc.append(scalar_at(T))
+
+    def array_call(arg, key):
+        res = [_call(lambda g=g: [float(x) for x in np.atleast_1d(g(T=arg))]) for g in getters]
+        st = _status(res)
+        if st == 'ok':
+            return {'st': 'ok', 'v': [[to_dec2(x) for x in r[1]] for r in res]}
+        if st == 'error':
+            detail[key] = [str(r[1])[:200] for r in res if r[0] != 'ok'][:1]
+        return {'st': st, 'v': []}
+
+    arr = array_call(L.container(Ts, forms['tcont']), 'array_error')
     # the same temperatures with an integer dtype, when they are integral
     arri = {'st': 'skip', 'v': []}
     sci = []
     scint = []          # per temperature: status of the evaluation at the Python int ("na": not integral)
-    if all(float(t).is_integer() for t in Ts):
+    if all(float(t).is_integer() for t in Ts) and len(Ts) <= 16:
         ints = [int(t) for t in Ts]
         ok = True
         for t in ints:
             t_in = (t, np.int64(t), np.int32(t))[case['cseed'] % 3]
             r = [_call(lambda g=g: float(np.squeeze(g(T=t_in)))) for g in getters]
-            st = {x[0] for x in r}
-            scint.append('ok' if st == {'ok'} else 'raise' if st == {'raise'} else 'error')
-            if st != {'ok'}:
+            st = _status(r)
+            scint.append(st)
+            if st != 'ok':
                 ok = False
                 detail.setdefault('int_scalar_error', []).append([t] + [str(x[1])[:120] for x in r if x[0] != 'ok'])
                 sci.append([])
@@ -166,22 +122,49 @@ def exec_select(case):
             sci.append([to_dec2(x[1]) for x in r])
         if ok:
             int_in = (np.array(ints), np.array(ints, dtype=np.int32), list(ints), np.array(ints, dtype=np.int16)
-                      if max(ints) < 32000 else np.array(ints, dtype=np.int32))[case['cseed'] % 4]
-            res = [_call(lambda g=g: [float(x) for x in np.atleast_1d(g(T=int_in))]) for g in getters]
-            if {r[0] for r in res} == {'ok'}:
-                arri = {'st': 'ok', 'v': [[to_dec2(x) for x in r[1]] for r in res]}
-            else:
+                      if max(ints) < 32000 else np.array(ints, dtype=np.int32), tuple(ints))[case['cseed'] % 5]
+            arri = array_call(int_in, 'int_array_error')
+            if arri['st'] != 'ok':
                 arri = {'st': 'error', 'v': []}
-                detail['int_array_error'] = [str(r[1])[:200] for r in res if r[0] != 'ok']
     else:
         scint = ['na'] * len(Ts)
-    e = {'ev': 'select', 'f': f, 'n': len(Ts), 'acc': case['acc'], 'seg': seg_vals, 'sc': sc, 'arr': arr,
-         'arri': arri, 'sci': sci, 'scint': scint, 'mag': mags}
+    # an array of no temperatures (same container kind)
+    emp = 'na'
+    if case.get('emp'):
+        res = [_call(lambda g=g: np.asarray(g(T=L.container([], forms['tcont'])))) for g in getters]
+        if _status(res) != 'ok':
+            emp = 'error'
+            detail['empty_error'] = [str(r[1])[:200] for r in res if r[0] != 'ok'][:1]
+        else:
+            emp = 'ok' if all(r[1].ndim == 1 and r[1].size == 0 for r in res) else 'nonempty'
+    # the temperatures as a 2-D array
+    twod = {'st': 'na', 'v': []}
+    if case.get('twod') and len(Ts) in (4, 6, 8, 9, 12):
+        n = len(Ts)
+        rows = 3 if n == 9 else 2
+        res = [_call(lambda g=g: [float(x) for x in np.asarray(g(T=np.array(Ts).reshape(rows, n // rows))).ravel()])
+               for g in getters]
+        st = _status(res)
+        twod = {'st': st, 'v': [[to_dec2(x) for x in r[1]] for r in res] if st == 'ok' else []}
+    # second scalar evaluation, in reverse order, on the same object
+    sc2 = [None] * len(Ts)
+    for i in reversed(range(len(Ts))):
+        sc2[i] = scalar_at(Ts[i])
+    e = {'ev': 'select', 'f': f, 'n': len(Ts), 'acc': acc, 'seg': seg_vals, 'sc': sc, 'arr': arr,
+         'arri': arri, 'sci': sci, 'scint': scint, 'mag': mags, 'sc2': sc2, 'emp': emp, 'twod': twod}
     return [e], detail
 
 
+def _inside(rnd, f, segs, bounds, j):
+    lo, hi = bounds[segs[j][0]], bounds[segs[j][1]]
+    T = rnd.uniform(lo, hi)
+    if f == 'nasa7' and j == 0:
+        T = min(T, math.nextafter(hi, -math.inf))
+    return T
+
+
 def exec_numeric(case):
-    """basis / linear / ghs / deriv probes"""
+    """basis / linear / ghs / deriv / edit probes"""
     import numpy as np
     import warnings
     warnings.simplefilter('ignore')
@@ -189,66 +172,173 @@ def exec_numeric(case):
     kind = case['kind']
     f = case['f']
     rnd = random.Random(case['cseed'])
-    ev = _evaluators(f)
-    qi = {'Cp': 0, 'H': 1, 'S': 2}
-    n = {'nasa7': 7, 'nasa9': 9, 'shomate': 8}[f]
+    ev = L.evaluators(f)
+    n = L.NCOEF[f]
     out = []
     if kind == 'basis':
         k, q, T, units = case['k'], case['q'], case['T'], case['units']
         unit = [0.0] * n
         unit[k - 1] = 1.0
-        val = ev[qi[q]](unit, T, units)
+        val = ev[QI[q]](unit, T, units)
         X = T / 1000.0 if f == 'shomate' else T
         out.append({'ev': 'basis', 'f': f, 'q': q, 'k': k, 'T': to_dec(T), 'X': to_dec(X),
                     'iX': to_dec(1.0 / X), 'lX': to_dec(math.log(X)), 'val': to_dec(val),
                     'R': to_dec(c.R(units))})
-    elif kind == 'linear':
+        return out, {}
+    if kind == 'linear':
         q, T, units = case['q'], case['T'], case['units']
-        a = _coeffs(rnd, 0, f)
+        a = L.dense(rnd, f)
         us = []
         for k in range(n):
             unit = [0.0] * n
             unit[k] = 1.0
-            us.append(ev[qi[q]](unit, T, units))
+            us.append(ev[QI[q]](unit, T, units))
         out.append({'ev': 'linear', 'f': f, 'q': q, 'a': [to_dec(x) for x in a],
-                    'units': [to_dec(x) for x in us], 'val': to_dec(ev[qi[q]](a, T, units))})
-    else:
-        segs = {'nasa7': [[1, 2], [2, 3]], 'nasa9': [[1, 2], [2, 3], [3, 4]], 'shomate': [[1, 2]]}[f]
-        bounds = BOUNDS[case['cseed'] % 2]
-        coefs = [_coeffs(rnd, 0, f) for _ in segs]
-        obj = _build(f, segs, bounds, coefs, UNITS[case['cseed'] % len(UNITS)])
+                    'units': [to_dec(x) for x in us], 'val': to_dec(ev[QI[q]](a, T, units))})
+        return out, {}
+    forms = L.forms_of(case)
+    segs = case['segs']
+    order = case.get('ord') or list(range(1, len(segs) + 1))
+    bounds = L.bounds_of(case['bset'], case['cseed'])
+    coefs = L.coefficient_sets(rnd, f, len(segs), forms['akind'], forms['scale'])
+    obj = L.build(f, segs, order, bounds, coefs, forms)
+    units = forms['units']
+    gu = forms['gunits']                      # unit of the dimensional getters (independent of the fitting unit)
+    eu = L.energy_unit(gu)
+    sq = lambda x: float(np.squeeze(x))       # noqa
+    detail = {'forms': forms}
+    if kind == 'ghs':
         j = rnd.randrange(len(segs))
-        lo, hi = bounds[segs[j][0]], bounds[segs[j][1]]
-        if kind == 'ghs':
-            T = rnd.uniform(lo, hi)
-            if f == 'nasa7' and j == 0:
-                T = min(T, math.nextafter(hi, -math.inf))
-            out.append({'ev': 'ghs', 'f': f, 'G': to_dec(float(np.squeeze(obj.get_GoRT(T=T)))),
-                        'H': to_dec(float(np.squeeze(obj.get_HoRT(T=T)))),
-                        'S': to_dec(float(np.squeeze(obj.get_SoR(T=T))))})
-            # the same relation under the entropy-of-the-elements option, dimensionless and in J/mol, for a
-            # scalar and for a one-element array T
-            rows = []
-            T_in = T if case['cseed'] % 2 else np.array([T])
+        T = _inside(rnd, f, segs, bounds, j)
+        out.append({'ev': 'ghs', 'f': f, 'G': to_dec(sq(obj.get_GoRT(T=T))), 'H': to_dec(sq(obj.get_HoRT(T=T))),
+                    'S': to_dec(sq(obj.get_SoR(T=T)))})
+        if f == 'shomate':                    # the module-level helper of the anchors
+            from pmutt.empirical import shomate as S
+            Ta = np.array([T])
+            a = np.array(coefs[0])
+            out.append({'ev': 'ghs', 'f': f, 'G': to_dec(S.get_shomate_GoRT(a=a, T=Ta, units=units)[0]),
+                        'H': to_dec(S.get_shomate_HoRT(a=a, T=Ta, units=units)[0]),
+                        'S': to_dec(S.get_shomate_SoR(a=a, T=Ta, units=units)[0])})
+        # the same relation under the entropy-of-the-elements option, dimensionless and in the unit `gu`, for every
+        # temperature of an array (length 1-5, any container), and the dimensional getters on the whole array
+        nT = case.get('nT', 1)
+        Ts = [T] + [_inside(rnd, f, segs, bounds, rnd.randrange(len(segs))) for _ in range(nT - 1)]
+        rows = []
+        for i, Ti in enumerate(Ts[:2]):
+            T_in = Ti if (case['cseed'] + i) % 2 else np.array([Ti])
             for se in (False, True):
-                rows.append({'se': se,
-                             'G': to_dec(float(np.squeeze(obj.get_GoRT(T=T_in, S_elements=se)))),
-                             'H': to_dec(float(np.squeeze(obj.get_HoRT(T=T_in)))),
-                             'S': to_dec(float(np.squeeze(obj.get_SoR(T=T_in, S_elements=se)))),
-                             'Gd': to_dec(float(np.squeeze(obj.get_G(T=T_in, units='J/mol', S_elements=se)))),
-                             'Hd': to_dec(float(np.squeeze(obj.get_H(T=T_in, units='J/mol')))),
-                             'Sd': to_dec(float(np.squeeze(obj.get_S(T=T_in, units='J/mol/K', S_elements=se))))})
-            out.append({'ev': 'ghsopt', 'f': f, 'T': to_dec(T), 'rows': rows})
+                rows.append({'i': i + 1, 'se': se,
+                             'G': to_dec(sq(obj.get_GoRT(T=T_in, S_elements=se))),
+                             'H': to_dec(sq(obj.get_HoRT(T=T_in))),
+                             'S': to_dec(sq(obj.get_SoR(T=T_in, S_elements=se))),
+                             'Gd': to_dec(sq(obj.get_G(T=T_in, units=eu, S_elements=se))),
+                             'Hd': to_dec(sq(obj.get_H(T=T_in, units=eu))),
+                             'Sd': to_dec(sq(obj.get_S(T=T_in, units=gu, S_elements=se)))})
+        R = c.R(gu)
+        dims = (lambda T: obj.get_Cp(T=T, units=gu), lambda T: obj.get_H(T=T, units=eu),
+                lambda T: obj.get_S(T=T, units=gu), lambda T: obj.get_G(T=T, units=eu))
+        dsc, dmag = [], []
+        for Ti in Ts:
+            dsc.append([to_dec2(sq(d(Ti))) for d in dims])
+            m = L.largest_terms(ev, coefs, Ti, units)
+            dmag.append([to_dec(m[0] * R), to_dec(m[1] * R * Ti), to_dec(m[2] * R), to_dec(max(m[1], m[2]) * R * Ti)])
+        res = [_call(lambda d=d: [float(x) for x in np.atleast_1d(d(L.container(Ts, forms['tcont'])))]) for d in dims]
+        if _status(res) == 'ok':
+            darr = {'st': 'ok', 'v': [[to_dec2(x) for x in r[1]] for r in res]}
+        elif forms['tcont'] in ('list', 'tuple'):
+            # T is documented as "float or (N,) numpy.ndarray": a list or tuple the getter refuses is not a violation
+            darr = {'st': 'refused', 'v': []}
+            detail['dim_container_refused'] = [str(r[1])[:200] for r in res if r[0] != 'ok'][:1]
         else:
-            h = H_STEP
-            T = rnd.uniform(lo / (1 - 2 * h) * 1.0001, hi / (1 + 2 * h) * 0.9999)
-            Ts = [T * (1 - 2 * h), T * (1 - h), T * (1 + h), T * (1 + 2 * h)]
-            out.append({'ev': 'deriv', 'f': f, 'T': to_dec(T), 'h': to_dec(h),
-                        'Cp': to_dec(float(np.squeeze(obj.get_CpoR(T=T)))),
-                        'Ts': [to_dec(x) for x in Ts],
-                        'H': [to_dec(float(np.squeeze(obj.get_HoRT(T=x)))) for x in Ts],
-                        'S': [to_dec(float(np.squeeze(obj.get_SoR(T=x)))) for x in Ts]})
-    return out, {}
+            darr = {'st': 'error', 'v': []}
+            detail['dim_array_error'] = [str(r[1])[:200] for r in res if r[0] != 'ok'][:2]
+        out.append({'ev': 'ghsopt', 'f': f, 'Ts': [to_dec(x) for x in Ts], 'rows': rows,
+                    'dsc': dsc, 'darr': darr, 'dmag': dmag})
+    elif kind == 'deriv':
+        h = H_STEP
+        # the five-point stencil T (1 +- 2h) must fit inside one segment
+        room = [j for j in range(len(segs))
+                if bounds[segs[j][0]] / (1 - 2 * h) * 1.0001 < bounds[segs[j][1]] / (1 + 2 * h) * 0.9999]
+        if not room:
+            raise core.MachineryError('no segment wide enough for the difference stencil: %r' % (case,))
+        j = rnd.choice(room)
+        lo, hi = bounds[segs[j][0]], bounds[segs[j][1]]
+        T = rnd.uniform(lo / (1 - 2 * h) * 1.0001, hi / (1 + 2 * h) * 0.9999)
+        Ts = [T * (1 - 2 * h), T * (1 - h), T * (1 + h), T * (1 + 2 * h)]
+        dim = bool(case.get('dim'))
+        if dim:
+            Cp = sq(obj.get_Cp(T=T, units=gu))
+            Hs = [sq(obj.get_H(T=x, units=eu)) for x in Ts]
+            Ss = [sq(obj.get_S(T=x, units=gu)) for x in Ts]
+        else:
+            Cp = sq(obj.get_CpoR(T=T))
+            Hs = [sq(obj.get_HoRT(T=x)) for x in Ts]
+            Ss = [sq(obj.get_SoR(T=x)) for x in Ts]
+        out.append({'ev': 'deriv', 'f': f, 'dim': dim, 'T': to_dec(T), 'h': to_dec(h), 'Cp': to_dec(Cp),
+                    'Ts': [to_dec(x) for x in Ts], 'H': [to_dec(x) for x in Hs], 'S': [to_dec(x) for x in Ss]})
+    elif kind == 'edit':
+        # evaluate, edit an attribute, evaluate again: the species must behave like a fresh one built from the
+        # edited attributes (nothing remembered from before the edit)
+        new = L.coefficient_sets(rnd, f, len(segs), 'dense', 1.0)
+        Ts = [_inside(rnd, f, segs, bounds, j) for j in range(len(segs))]
+        Ts.append(bounds[segs[0][1]])                       # a bound (T_mid / first break / T_high)
+        gs = [getattr(obj, g) for g in GETTERS]
+        before = [[sq(g(T=T)) for g in gs] for T in Ts]
+        _ = [g(T=np.array(Ts)) for g in gs]                  # array calls before the edit, too
+        bnew = dict(bounds)
+        what = case['what']
+        coefs2 = [list(x) for x in coefs]
+        forms2 = dict(forms)
+        if f == 'nasa7':
+            if what == 0:
+                obj.a_low = np.array(new[0]); coefs2[0] = new[0]
+            elif what == 1:
+                obj.a_high = np.array(new[1]); coefs2[1] = new[1]
+            else:                                            # move the break: temperatures in between change segment
+                tm = 0.5 * (bounds[segs[0][0]] + bounds[segs[0][1]])
+                obj.T_mid = tm; bnew[segs[0][1]] = tm
+                Ts.append(0.5 * (tm + bounds[segs[0][1]]))
+                Ts.append(tm)
+                before += [[sq(g(T=T)) for g in gs] for T in Ts[-2:]]
+        elif f == 'nasa9':
+            from pmutt.empirical.nasa import SingleNasa9
+            if what == 0:                                    # a new list of segments
+                coefs2 = new
+                ns = [SingleNasa9(T_low=bounds[lo], T_high=bounds[hi], a=np.array(cf)) for (lo, hi), cf in zip(segs, new)]
+                obj.nasas = [ns[j - 1] for j in order]
+            elif what == 1:                                  # the coefficients of one stored segment
+                j = rnd.randrange(len(segs))
+                coefs2[j] = new[j]
+                [s for s in obj.nasas if s.T_low == bounds[segs[j][0]]][0].a = np.array(new[j])
+            else:                                            # the stored order reversed
+                obj.nasas = list(reversed(obj.nasas)); order = list(reversed(order))
+        else:
+            if what == 0:
+                obj.a = np.array(new[0]); coefs2[0] = new[0]
+            elif what == 1:
+                us = L.r_units()
+                forms2['units'] = us[(us.index(units) + 1 + rnd.randrange(len(us) - 1)) % len(us)]
+                obj.units = forms2['units']
+            else:                                            # the validity range (values do not depend on it)
+                obj.T_low = bounds[segs[0][0]] + 1.0; obj.T_high = bounds[segs[0][1]] - 1.0
+        forms2['ctor'] = 'direct'
+        forms2['acont'] = 'ndarray'
+        forms2['tmid'] = 'same'
+        fresh = L.build(f, segs, order, bnew, coefs2, forms2)
+        fg = [getattr(fresh, g) for g in GETTERS]
+        rows, changed = [], 0
+        for T, b4 in zip(Ts, before):
+            for g, g2, o in zip(gs, fg, b4):
+                a, b = sq(g(T=T)), sq(g2(T=T))
+                rows.append({'a': to_dec2(a), 'b': to_dec2(b)})
+                changed += (a != o)
+        arr_a = [np.atleast_1d(g(T=np.array(Ts))) for g in gs]
+        arr_b = [np.atleast_1d(g2(T=np.array(Ts))) for g2 in fg]
+        for x, y in zip(arr_a, arr_b):
+            rows += [{'a': to_dec2(p), 'b': to_dec2(q)} for p, q in zip(x, y)]
+        out.append({'ev': 'edit', 'f': f, 'rows': rows})
+        detail['changed'] = int(changed)
+    return out, detail
 
 
 def execute(case):
@@ -259,36 +349,183 @@ def execute(case):
     except core.MachineryError:
         raise
     except Exception as ex:
-        return [], {'raised': '%s: %s' % (type(ex).__name__, ex)}
+        import traceback
+        return [], {'raised': '%s: %s' % (type(ex).__name__, ex), 'tb': traceback.format_exc()[-1500:]}
 
 
-def _numeric_cases(ctx, rnd):
+# ---------------------------------------------------------------------------------------------------------
+# case generation
+# ---------------------------------------------------------------------------------------------------------
+class _RoundRobin:
+    """enumerations are walked round-robin (per family) so that every value of every enumeration is used in
+    every run; the walk starts at a seed-dependent offset and the enumerations advance with different strides
+    so that their combinations vary"""
+
+    def __init__(self, rnd):
+        self.n = {}
+        self.off = rnd.randrange(1 << 16)
+
+    def pick(self, key, values, stride=1):
+        i = self.n.get(key, 0)
+        self.n[key] = i + 1
+        return values[(self.off + i * stride) % len(values)]
+
+
+def _assign_forms(rr, rnd, f, case, units):
+    """forms of one species-level case (select / ghs / deriv)"""
+    fm = {}
+    kd = (case['kind'], bool(case.get('dim')))       # one walk per kind of case, so that each kind sees every unit
+    if f == 'shomate':
+        fm['units'] = rr.pick((f, kd, 'units'), units)
+    fm['gunits'] = rr.pick((f, kd, 'gunits'), units, 5)
+    fm['tcont'] = rr.pick((f, 'tcont'), L.TCONT)
+    fm['tscalar'] = rr.pick((f, 'tscalar'), L.TSCALAR)
+    # half of the cases: the plain form (dense float ndarray coefficients); the rest walk the enumerations
+    if rr.pick((f, 'plain'), [0, 1]):
+        fm['acont'] = rr.pick((f, 'acont'), L.ACONT)
+        fm['akind'] = rr.pick((f, 'akind'), L.AKIND)
+        if fm['akind'] == 'scaled':
+            fm['scale'] = rr.pick((f, 'scale'), L.SCALES)
+    if case['bset'] == 0:
+        fm['bform'] = rr.pick((f, 'bform'), L.BFORM)
+        if f == 'nasa7':
+            fm['tmid'] = rr.pick((f, 'tmid'), L.TMID + ['same'])
+    else:
+        fm['bform'] = rr.pick((f, 'bform1'), ['float', 'np.float64'])
+    fm['phase'] = rr.pick((f, 'phase'), L.PHASE)
+    # a species rebuilt from its dictionary (SingleNasa9.to_dict needs ndarray coefficients: C11's business)
+    if fm.get('acont', 'ndarray') == 'ndarray' and not case.get('single') and fm.get('tmid', 'same') == 'same':
+        fm['ctor'] = rr.pick((f, 'ctor'), ['direct', 'direct', 'from_dict'])
+    case['forms'] = fm
+    return case
+
+
+LAYOUT = {'nasa7': [[1, 2], [2, 3]], 'shomate': [[1, 2]]}
+N9_LAYOUTS = [([[1, 2]], [1]), ([[1, 2], [2, 3]], [1, 2]), ([[1, 2], [2, 3]], [2, 1]),
+              ([[1, 2], [2, 3], [3, 4]], [1, 2, 3]), ([[1, 2], [2, 3], [3, 4]], [2, 3, 1]),
+              ([[1, 2], [2, 3], [3, 4], [4, 5]], [1, 2, 3, 4]), ([[1, 2], [2, 3], [3, 4], [4, 5]], [4, 3, 2, 1]),
+              ([[1, 2], [2, 3], [4, 5], [5, 6]], [3, 1, 4, 2])]
+
+
+def _layout(rr, f):
+    if f == 'nasa9':
+        segs, order = rr.pick('n9layout', N9_LAYOUTS)
+        return {'segs': segs, 'ord': order}
+    return {'segs': LAYOUT[f], 'ord': list(range(1, len(LAYOUT[f]) + 1))}
+
+
+def _numeric_cases(ctx, rnd, rr, units):
     cases = []
-    temps = [60.0, 150.0, 298.15, 500.0, 777.7, 1000.0, 1500.0, 2222.2, 3000.0, 4000.0, 5000.0, 6000.0]
+    temps = [50.0, 60.0, 150.0, 298.15, 500.0, 777.7, 1000.0, 1500.0, 2222.2, 3000.0, 4000.0, 5000.0, 6000.0]
     for f, n in (('nasa7', 7), ('nasa9', 9), ('shomate', 8)):
         for q in ('Cp', 'H', 'S'):
             for k in range(1, n + 1):
-                for i, T in enumerate(temps if not ctx.quick else temps[::2] + [rnd.uniform(50, 6000)]):
+                for T in (temps if not ctx.quick else temps[::2] + [rnd.uniform(50, 6000)]):
                     cases.append({'kind': 'basis', 'f': f, 'q': q, 'k': k, 'T': T,
-                                  'units': UNITS[(i + k) % len(UNITS)], 'cseed': 0})
-            for i in range(ctx.pick(15, 150)):
+                                  'units': rr.pick((f, q, 'basis-units'), units), 'cseed': 0})
+            for i in range(ctx.pick(16, 160)):
                 cases.append({'kind': 'linear', 'f': f, 'q': q, 'T': rnd.uniform(50, 6000),
-                              'units': UNITS[i % len(UNITS)], 'cseed': rnd.randrange(1 << 30)})
-        for i in range(ctx.pick(60, 1500)):
-            cases.append({'kind': 'ghs', 'f': f, 'cseed': rnd.randrange(1 << 30)})
-            cases.append({'kind': 'deriv', 'f': f, 'cseed': rnd.randrange(1 << 30)})
+                              'units': rr.pick((f, q, 'linear-units'), units), 'cseed': rnd.randrange(1 << 30)})
+        for i in range(ctx.pick(64, 1500)):
+            for kind in ('ghs', 'deriv'):
+                cs = {'kind': kind, 'f': f, 'cseed': rnd.randrange(1 << 30), 'bset': i % 4}
+                cs.update(_layout(rr, f))
+                if kind == 'ghs':
+                    cs['nT'] = rr.pick((f, 'nT'), [1, 2, 3, 5, 1])
+                else:
+                    cs['dim'] = bool(i % 2)
+                    if cs['bset'] == 3:
+                        cs['bset'] = 1               # a 2^-10 K segment has no room for a difference stencil
+                _assign_forms(rr, rnd, f, cs, units)
+                cases.append(cs)
+        for i in range(ctx.pick(24, 300)):
+            cs = {'kind': 'edit', 'f': f, 'cseed': rnd.randrange(1 << 30), 'bset': i % 3, 'what': i % 3}
+            cs.update(_layout(rr, f))
+            cs['forms'] = {'units': rr.pick((f, 'edit-units'), units)} if f == 'shomate' else {}
+            cases.append(cs)
     return cases
+
+
+def _select_cases(ctx, rnd, rr, data, units):
+    sel = list(data['scalar'])
+    arr = list(data['array'])
+    longs = list(data['long'])
+    ctx.coverage['tlc_scalar_cases'] = len(sel)
+    ctx.coverage['tlc_array_cases'] = len(arr)
+    ctx.coverage['tlc_long_array_cases'] = len(longs)
+    rnd.shuffle(arr)
+    rnd.shuffle(longs)
+    if ctx.quick:
+        # a sample stratified by family (the NASA-9 layouts x stored orders are 9 in 10 of what TLC emits)
+        def strat(items, quota):
+            out = []
+            for fam, q in quota.items():
+                out += [x for x in items if x['f'] == fam][:q]
+            return out
+        arr = strat(arr, {'nasa7': 500, 'shomate': 300, 'nasa9': 1600})
+        longs = strat(longs, {'nasa7': 100, 'shomate': 100, 'nasa9': 400})
+    cases = []
+    for i, cs in enumerate(sel + arr + longs):
+        scalar = len(cs['ps']) == 1
+        for bset in ((0, 1, 2, 3) if scalar else (i % 4,) if ctx.quick else (i % 4, (i + 2) % 4)):
+            c = {'kind': 'select', 'f': cs['f'], 'segs': cs['segs'], 'ord': cs['ord'], 'ps': cs['ps'],
+                 'acc': cs['acc'], 'bset': bset, 'cseed': rnd.randrange(1 << 30),
+                 'emp': (i + bset) % 3 == 0, 'twod': len(cs['ps']) in (4, 6, 8, 9, 12) and i % 4 == 0}
+            cases.append(_assign_forms(rr, rnd, cs['f'], c, units))
+    # SingleNasa9 used on its own: the TLC cases of the one-segment NASA-9 layout that are never refused
+    single = [cs for cs in sel + list(data['array']) + list(data['long'])
+              if cs['f'] == 'nasa9' and cs['segs'] == [[1, 2]] and all(a == [1] for a in cs['acc'])]
+    rnd.shuffle(single)
+    single.sort(key=lambda cs: len(cs['ps']) != 1)            # every scalar position, then a sample of the arrays
+    for i, cs in enumerate(single[:ctx.pick(120, 100000)]):
+        c = {'kind': 'select', 'f': 'nasa9', 'single': True, 'segs': cs['segs'], 'ord': cs['ord'], 'ps': cs['ps'],
+             'acc': cs['acc'], 'bset': i % 4, 'cseed': rnd.randrange(1 << 30), 'emp': i % 3 == 0, 'twod': False}
+        cases.append(_assign_forms(rr, rnd, 'nasa9', c, units))
+    # long arrays of temperatures strictly inside named segments, unsorted and with repeated values
+    lens = [16, 33, 100, 257] if ctx.quick else [16, 33, 64, 100, 257, 1000]
+    for f in ('nasa7', 'nasa9', 'shomate'):
+        for n in lens:
+            for rep in range(ctx.pick(2, 6)):
+                lay = _layout(rr, f)
+                nseg = len(lay['segs'])
+                xs = [[rnd.randrange(nseg) + 1, rnd.random()] for _ in range(n)]
+                for _ in range(max(1, n // 8)):               # repeated temperatures
+                    xs[rnd.randrange(n)] = list(xs[rnd.randrange(n)])
+                c = {'kind': 'select', 'f': f, 'segs': lay['segs'], 'ord': lay['ord'], 'xT': xs,
+                     'bset': rep % 4, 'cseed': rnd.randrange(1 << 30), 'emp': True, 'twod': False}
+                cases.append(_assign_forms(rr, rnd, f, c, units))
+    return cases
+
+
+def _tags(case, events=()):
+    fm = L.forms_of(case)
+    n = len(case['xT']) if 'xT' in case else len(case.get('ps', [])) if case['kind'] == 'select' else case.get('nT', 0)
+    t = {'kind': case['kind'], 'f': case['f'], 'q': case.get('q'), 'arr': n > 1, 'n': n,
+         'single': bool(case.get('single')), 'tcont': fm['tcont'], 'akind': fm['akind'], 'acont': fm['acont'],
+         'ctor': fm['ctor'], 'units': fm['units']}
+    # how the array calls ended ("error": an exception other than the ValueError of a refusal): lets a known
+    # finding about a call that raises stay apart from one about wrong values
+    for ev in events:
+        if ev.get('ev') == 'select':
+            t.update({'arr_st': ev['arr']['st'], 'arri_st': ev['arri']['st'], 'emp': ev['emp']})
+        elif ev.get('ev') == 'ghsopt':
+            t['darr_st'] = ev['darr']['st']
+    return t
 
 
 def run(ctx):
     ctx.coverage['rule'] = (
-        'select cases are every (family, segment layout, temperature position / array of positions) '
-        'emitted by TLC from Poly.tla, instantiated with random distinct per-segment coefficients; '
-        'basis cases are unit-vector probes of every coefficient of every evaluator; linear/ghs/deriv '
-        'cases use random coefficient vectors; non-trivial: a select case that touches a boundary, a '
-        'neighbouring double, a gap or an out-of-range position, or any numeric probe with a non-zero '
-        'table entry; distinct by (kind, family, layout, positions / coefficient index, quantity)')
+        'select cases are every (family, segment layout with 1-4 NASA-9 segments, stored order, temperature position / '
+        'array of positions) emitted by TLC from Poly.tla, instantiated with random distinct per-segment coefficients '
+        'on four boundary sets (two fixed, two random incl. the ends 50 K / 6000 K and a 2^-10 K segment); the forms of '
+        'the inputs (every unit of constants.R, T / coefficient containers, number types of T and of the bounds, '
+        'coefficient kinds zero / sparse / integer / scaled 1e-12..1e12, constructor, phase) are walked round-robin; '
+        'basis cases are unit-vector probes of every coefficient of every evaluator; linear/ghs/deriv/edit cases use '
+        'random coefficient vectors; non-trivial: a select case that touches a boundary, a neighbouring double, a gap '
+        'or an out-of-range position, or any numeric probe with a non-zero table entry; distinct by (kind, family, '
+        'layout, order, positions / coefficient index, quantity)')
     rnd = random.Random(ctx.seed)
+    units = L.r_units()
     if ctx.replay_case is not None:
         cases = [ctx.replay_case['case']]
     else:
@@ -298,53 +535,148 @@ def run(ctx):
         ctx.coverage.setdefault('models', []).append(
             {'module': 'MC_Poly', 'cfg': 'MC_Poly', 'distinct_states': r.distinct, 'ok': r.ok,
              'assumes': ['CalculusOK (24 coefficient terms x dH=Cp, TdS=Cp, integration constants)',
-                         'SelectOK (implementation rule within the allowed set for every position)']})
+                         'SelectOK (implementation rule within the allowed set for every position, every layout '
+                         'with 1-4 NASA-9 segments, every stored order)',
+                         'OrderOnlyAtSharedBound (the stored order is observable only on a bound shared by two segments)']})
         if not r.ok:
             raise core.MachineryError('Poly design model failed:\n' + r.out[-3000:])
-        sel = list(data['scalar'])
-        arr = list(data['array'])
-        longs = list(data['long'])
-        ctx.coverage['tlc_scalar_cases'] = len(sel)
-        ctx.coverage['tlc_array_cases'] = len(arr)
-        ctx.coverage['tlc_long_array_cases'] = len(longs)
-        rnd.shuffle(arr)
-        if ctx.quick:
-            arr = arr[:2500]
-        cases = []
-        rnd.shuffle(longs)
-        if ctx.quick:
-            longs = longs[:500]
-        for i, cs in enumerate(sel + arr + longs):
-            for bset in ((0, 1) if (len(cs['ps']) == 1 or not ctx.quick) else (i % 2,)):
-                cases.append({'kind': 'select', 'f': cs['f'], 'segs': cs['segs'], 'ps': cs['ps'],
-                              'acc': cs['acc'], 'bset': bset, 'cseed': rnd.randrange(1 << 30)})
-        cases += _numeric_cases(ctx, rnd)
+        rr = _RoundRobin(rnd)
+        cases = _select_cases(ctx, rnd, rr, data, units) + _numeric_cases(ctx, rnd, rr, units)
     results = core.pmap(execute, cases)
     traces = []
+    cov = {}
+
+    def seen(key, val):
+        cov.setdefault(key, {})
+        k = str(val)
+        cov[key][k] = cov[key].get(k, 0) + 1
+
     for tid, (case, (events, detail)) in enumerate(zip(cases, results)):
         ctx.evaluated()
+        tags = _tags(case, events)
         if 'raised' in detail:
-            ctx.violation('Raises', case, tags={'kind': case['kind'], 'f': case['f']}, detail=detail)
-        if case['kind'] == 'select':
-            if any(p % 4 != 2 or p == 2 for p in case['ps']) or any(a == [0] for a in case['acc']):
-                ctx.nontrivial(['select', case['f'], case['segs'], case['ps'], case['bset']])
+            ctx.violation('Raises', case, tags=tags, detail=detail)
+        kind, f = case['kind'], case['f']
+        fm = L.forms_of(case)
+        if kind == 'select':
+            ps = case.get('ps', [])
+            if 'xT' in case or any(p % 4 != 2 or p == 2 for p in ps) or any(a == [0] for a in case['acc']):
+                ctx.nontrivial(['select', f, case['segs'], case.get('ord'), ps or len(case['xT']), case['bset'],
+                                bool(case.get('single'))])
+            ev = events[0] if events else None
+            n = len(case['xT']) if 'xT' in case else len(ps)
+            seen('select_family', 'single9' if case.get('single') else f)
+            seen('array_length', n if n <= 12 else '13+')
+            seen('bounds_set', case['bset'])
+            seen('T_container', fm['tcont'])
+            seen('T_scalar_form', fm['tscalar'])
+            if f == 'nasa9' and not case.get('single'):
+                seen('nasa9_segments', len(case['segs']))
+                o = case['ord']
+                seen('nasa9_stored_order', 'ascending' if o == sorted(o) else 'descending' if o == sorted(o, reverse=True) else 'mixed')
+            if f == 'shomate':
+                seen('shomate_units_select', fm['units'])
+            if ev is not None:
+                evaluated = ev['arr']['st'] == 'ok'
+                if evaluated:
+                    seen('coef_container', fm['acont'])
+                    seen('coef_kind', fm['akind'] if fm['akind'] != 'scaled' else 'scaled %g' % fm['scale'])
+                    seen('bound_form', fm['bform'] if case['bset'] == 0 else 'float')
+                    seen('constructor', fm['ctor'])
+                    seen('phase', fm['phase'])
+                    if f == 'nasa7':
+                        seen('T_mid_form', fm['tmid'] if fm['tmid'] == 'list' else fm['bform'] if case['bset'] == 0 else 'float')
+                if ev['emp'] != 'na':
+                    seen('empty_array', f)
+                if ev['twod']['st'] != 'na':
+                    seen('two_d', '%s:%s' % (f, ev['twod']['st']))
+                if any(x != 'na' for x in ev['scint']):
+                    seen('int_array', f)
+                for i, p in enumerate(ps):
+                    if ev['sc'][i]['st'] == 'ok':
+                        if p == 4 or p == 4 * case['segs'][-1][1]:
+                            seen('on_range_end', f)
+                        elif p % 4 == 0:
+                            seen('on_interior_bound', f)
+                        elif p % 4 in (1, 3):
+                            seen('adjacent_to_bound', f)
+                    elif ev['sc'][i]['st'] == 'raise':
+                        seen('refused', f)
         else:
-            ctx.nontrivial([case['kind'], case['f'], case.get('q'), case.get('k'), case.get('T'), case['cseed']])
+            ctx.nontrivial([kind, f, case.get('q'), case.get('k'), case.get('T'), case['cseed']])
+            if kind in ('basis', 'linear') and f == 'shomate':
+                seen('shomate_units_%s' % kind, case['units'])
+            if kind in ('ghs', 'deriv', 'edit') and events:
+                if f == 'shomate':
+                    seen('shomate_units_%s' % kind, fm['units'])
+                if kind == 'ghs':
+                    seen('dim_units', fm['gunits'])
+                    seen('dim_array_length', case.get('nT', 1))
+                    seen('dim_T_container', fm['tcont'])
+                if kind == 'deriv':
+                    seen('deriv_getters', ('dimensional ' if case.get('dim') else 'dimensionless ') + f)
+                    if case.get('dim'):
+                        seen('dim_units_deriv', fm['gunits'])
+                    seen('deriv_coef_kind', fm['akind'] if fm['akind'] != 'scaled' else 'scaled %g' % fm['scale'])
+                if kind == 'edit':
+                    seen('edit', '%s:%d:%s' % (f, case['what'], 'changed' if detail.get('changed') else 'same'))
         traces.append((tid, events))
         if tid % 1499 == 0:
-            ctx.sample({k: v for k, v in case.items()})
-    fails, stats = core.validate_traces('Trace_Poly', 'Trace_Poly', traces)
+            ctx.sample({k: v for k, v in case.items() if k != 'xT'})
+    ctx.coverage['input_classes'] = cov
+    fails, stats = core.validate_traces('Trace_Poly', 'Trace_Poly', traces,
+                                        shards=int(os.environ.get('VERIF_SHARDS', '0')) or None)
     ctx.count('traces_validated_against_impl', len(traces))
     ctx.coverage['trace_lines'] = stats['lines']
     for tid, idx, clause in fails:
-        case = cases[tid]
-        tags = {'kind': case['kind'], 'f': case['f'], 'q': case.get('q'),
-                'arr': len(case.get('ps', [])) > 1}
-        ctx.violation(clause, case, tags=tags, detail=results[tid][1])
+        ctx.violation(clause, cases[tid], tags=_tags(cases[tid], results[tid][0]), detail=results[tid][1])
+    if ctx.replay_case is None:
+        missing = _vacuity(cov, units)
+        if missing:
+            # a library that breaks a whole input class shows up here, too (nothing of the class evaluates): the
+            # violations it caused are the verdict then; without an unexplained violation the run is vacuous
+            findings = core.load_findings(ctx.prop)
+            unexplained = [v for v in ctx.violations
+                           if not any(core.finding_matches(e, v['clause'], v['tags']) for e in findings)]
+            if not unexplained:
+                raise core.MachineryError('vacuous run, input classes never exercised: %r' % (missing,))
+            ctx.coverage['input_classes_not_exercised'] = missing
     ctx.assume('ln T is a libm sensor computed from the logged temperature; 1/T is a witness verified by multiplication')
     ctx.assume('array = map of scalar is read as agreement to 1e-13 relative (Shomate BLAS path differs from scalar by ~3e-15)')
     ctx.assume('derivative clauses (Richardson, h = 2^-7) detect relative Cp errors above ~1e-4; the exact statement is the '
                'symbolic calculus on the tables plus the basis binding at 1e-6')
+    ctx.assume('a 2-D temperature array is outside the documented (N,) input: refusing it is accepted, mapping it is judged')
+
+
+def _vacuity(cov, units):
+    """every class of the input space named by the quantifier must have been exercised (and evaluated)"""
+    need = {
+        'select_family': ['nasa7', 'nasa9', 'shomate', 'single9'],
+        'array_length': [str(n) for n in range(1, 13)] + ['13+'],
+        'bounds_set': ['0', '1', '2', '3'],
+        'T_container': L.TCONT, 'T_scalar_form': L.TSCALAR,
+        'nasa9_segments': ['1', '2', '3', '4'], 'nasa9_stored_order': ['ascending', 'descending', 'mixed'],
+        'coef_container': L.ACONT,
+        'coef_kind': ['dense', 'zero', 'sparse', 'int'] + ['scaled %g' % s for s in L.SCALES],
+        'bound_form': L.BFORM, 'constructor': L.CTOR, 'phase': [str(p) for p in L.PHASE],
+        'T_mid_form': L.BFORM + ['list'],
+        'empty_array': ['nasa7', 'nasa9', 'shomate'], 'int_array': ['nasa7', 'nasa9', 'shomate'],
+        'on_range_end': ['nasa7', 'nasa9', 'shomate'], 'on_interior_bound': ['nasa7', 'nasa9'],
+        'adjacent_to_bound': ['nasa7', 'nasa9', 'shomate'], 'refused': ['nasa9'],
+        'dim_units': units, 'dim_units_deriv': units, 'dim_array_length': ['1', '2', '3', '5'],
+        'dim_T_container': L.TCONT,
+        'deriv_getters': [a + f for a in ('dimensional ', 'dimensionless ') for f in ('nasa7', 'nasa9', 'shomate')],
+        'edit': ['%s:%d:changed' % (f, w) for f in ('nasa7', 'nasa9', 'shomate') for w in (0, 1)] + ['nasa7:2:changed'],
+    }
+    for k in ('select', 'basis', 'linear', 'ghs', 'deriv', 'edit'):
+        need['shomate_units_%s' % k] = units
+    missing = {}
+    for key, vals in need.items():
+        got = cov.get(key, {})
+        miss = [v for v in vals if not got.get(str(v))]
+        if miss:
+            missing[key] = miss
+    return missing
 
 
 if __name__ == '__main__':
